@@ -60,6 +60,13 @@ def run_one(args):
     label, tail = args
     lines, hrc, err = vlib.pipe_to_driver([vlib.hbin(BIN)] + tail)
     r = vlib.parse_driver(lines)
+    if any("did not terminate" in x for x in r["mon"]) or any("impl=[hang]" in x for x in r["diff"]):
+        # the harness' per-op watchdog is a wall-clock judgement; on a loaded machine a descheduled thread looks like a
+        # hang. Run the invocation again with a 60 s per-op limit: only an op that still does not return is reported.
+        env = dict(os.environ); env["VH_OP_TIMEOUT_MS"] = "60000"
+        lines, hrc, err = vlib.pipe_to_driver([vlib.hbin(BIN)] + tail, env=env)
+        r = vlib.parse_driver(lines)
+        r["retried_after_watchdog"] = True
     r["label"], r["tail"], r["hrc"], r["err"] = label, tail, hrc, err
     return r
 
